@@ -13,15 +13,18 @@ def run(tier):
     c.add_replay(res, "every location x 16 depths x 2 property lists (3D, and 2D on the section) under ASan + UBSan")
     # the worlds and query points of the other specifications, judged here only for totality, finiteness and sanitizer reports
     borrowed = []
-    step = 6 if tier != "thorough" else 2
-    for mod, cfg, pick in (("Models.tla", "Models.cfg", 1), ("Envelope.tla", "Envelope.cfg", 2), ("Surface.tla", "Surface.cfg", 20 * step),
-                           ("Sections.tla", "Sections.cfg", 20 * step), ("Slab.tla", "Slab_quick.cfg", 10 * step), ("Culling.tla", "Culling.cfg", step),
-                           ("Motion.tla", "Motion.cfg", 10 * step), ("CrossSection.tla", "CrossSection.cfg", 3), ("Plume.tla", "Plume_cart_quick.cfg", 20 * step),
-                           ("Paint.tla", "Paint_quick.cfg", 20 * step), ("Rng.tla", "Rng_quick.cfg", 10 * step)):
-        rr = tlc.run(mod, cfg, workers=12, timeout=1800, heap="12g")
+    step = 12 if tier != "thorough" else 2
+    q = tier != "thorough"
+    specs = (("Models.tla", "Models.cfg", 3 if q else 1), ("Envelope.tla", "Envelope.cfg", 6 if q else 2), ("Surface.tla", "Surface.cfg", 20 * step),
+             ("Sections.tla", "Sections.cfg", 20 * step), ("Slab.tla", "Slab_quick.cfg", 10 * step), ("Culling.tla", "Culling.cfg", step),
+             ("Motion.tla", "Motion.cfg", 10 * step), ("CrossSection.tla", "CrossSection.cfg", 12 if q else 3), ("Plume.tla", "Plume_cart_quick.cfg", 20 * step),
+             ("Paint.tla", "Paint_quick.cfg", 20 * step), ("Rng.tla", "Rng_quick.cfg", 10 * step))
+    from concurrent.futures import ThreadPoolExecutor
+    with ThreadPoolExecutor(4) as ex:
+        runs = list(ex.map(lambda t: tlc.run(t[0], t[1], workers=4, timeout=1800, heap="8g"), specs))
+    for (mod, cfg, pick), rr in zip(specs, runs):
         c.add_tlc(rr, "borrowed worlds of " + mod)
-        bb = list(dict.fromkeys(rr.behaviours))[c.seed % pick::pick]
-        borrowed += bb
+        borrowed += list(dict.fromkeys(rr.behaviours))[c.seed % pick::pick]
     bres = replay.replay(exe, borrowed, shards=16, timeout_s=300, extra=("--only-finite", "1"))
     bres.n = len(borrowed)
     c.add_replay(bres, "worlds and points of the other specifications under ASan + UBSan: only totality and finiteness are judged")
